@@ -226,6 +226,10 @@ func (p *protocol) handleTransactionPayload(ctx context.Context, connection grpc
 	}
 
 	// it's saved, remove the job
+	if p.privatePayloadReceiver == nil {
+		// no node DID configured: private payloads are not being fetched, so there's no job to finish
+		return nil
+	}
 	return p.privatePayloadReceiver.Finished(ref)
 }
 
